@@ -1,8 +1,145 @@
-"""Extended operations of SIM-E (edit, cancel/force, ...)."""
+"""Extended operations of SIM-E: live edits, cancel / force of run-log items, stop-message sampling."""
 from __future__ import annotations
+
+import re
 
 from simcore.core import HarnessError
 
+from . import model
+
+
+def _state_sets(w):
+    ms = w.method_state()
+    return set(ms.started_line_ids), set(ms.executed_line_ids), set(ms.failed_line_ids)
+
 
 def execute(w, op, by_name, res, tape, fp):
-    raise HarnessError(f"unknown op {op}")
+    k = op[0]
+    if k == "edit":
+        _edit(w, op, by_name, res, fp)
+    elif k in ("cancel", "force"):
+        _cancel_force(w, op, by_name, res, fp)
+    elif k == "runlog":
+        by_name["C15RunLog"].check()
+    elif k == "stop_check":
+        # C13: after any history the engine stays responsive to Stop
+        if w.state != "Stopped":
+            res.add("C13", "C13.stop_not_honoured", w.state, w.tick_no,
+                    f"user Stop followed by 4 ticks left the engine in state {w.state}")
+        else:
+            res.probe("stop_honoured")
+    else:
+        raise HarnessError(f"unknown op {op}")
+
+
+def _edit(w, op, by_name, res, fp):
+    """["edit", kind, k, payload]
+    kinds: append (payload = list of lines appended at the end of the method),
+           append_scope (lines appended at the end of the k-th open body scope, indented accordingly),
+           change_future (k-th not-yet-started token line gets payload as its new content),
+           delete_future (k-th not-yet-started line without children is deleted),
+           change_started (k-th started/executed line is modified -> must be rejected),
+           same (the unchanged method is sent again)."""
+    _, kind, k, payload = op
+    lines = [list(x) for x in w.method_lines]
+    started, executed, failed = _state_sets(w)
+    touched = started | executed | failed
+    tree = model.parse(lines)
+    nodes = [n for n in tree.walk() if n.kind != "root"]
+    new_lines = None
+    expect = "accept"
+    w.edit_seq = getattr(w, "edit_seq", 0) + 1
+
+    def nid():
+        w.line_seq = getattr(w, "line_seq", 1000) + 1
+        return f"E{w.line_seq}"
+
+    if kind == "append":
+        new_lines = lines + [[nid(), ln] for ln in payload]
+    elif kind == "append_scope":
+        scopes = [n for n in nodes if n.kind in model.BODY_KINDS and n.kind != "Macro"]
+        if not scopes:
+            new_lines = lines + [[nid(), ln] for ln in payload]
+        else:
+            sc = scopes[k % len(scopes)]
+            # position after the last descendant line of the scope
+            ids = [x.id for x in sc.walk()]
+            last = max(i for i, (lid, _) in enumerate(lines) if lid in ids)
+            ind = " " * (sc.indent + 4)
+            new_lines = lines[:last + 1] + [[nid(), ind + ln] for ln in payload] + lines[last + 1:]
+    elif kind in ("change_future", "delete_future"):
+        cands = [n for n in nodes if n.id not in touched and n.token is not None and not n.children
+                 and not any(a.id in executed for a in n.ancestors() if a.kind == "Macro")]
+        if not cands:
+            fp.append("edit-none")
+            return
+        n = cands[k % len(cands)]
+        idx = next(i for i, (lid, _) in enumerate(lines) if lid == n.id)
+        if kind == "change_future":
+            new_lines = [list(x) for x in lines]
+            if isinstance(payload, list):
+                payload = payload[0]
+            new_lines[idx][1] = " " * n.indent + payload
+        else:
+            new_lines = lines[:idx] + lines[idx + 1:]
+    elif kind == "change_started":
+        cands = [n for n in nodes if n.id in (started | executed) and n.kind == "Mark"]
+        if not cands:
+            fp.append("edit-none")
+            return
+        n = cands[k % len(cands)]
+        idx = next(i for i, (lid, _) in enumerate(lines) if lid == n.id)
+        new_lines = [list(x) for x in lines]
+        new_lines[idx][1] = " " * n.indent + payload
+        expect = "reject"
+    elif kind == "same":
+        new_lines = lines
+    else:
+        raise HarnessError(f"unknown edit kind {kind}")
+    for o in by_name.values():
+        f = getattr(o, "before_edit", None)
+        if f:
+            f(kind, expect, lines, new_lines)
+    reply = w.set_method_text("", lines=[tuple(x) for x in new_lines])
+    accepted = type(reply).__name__ == "SuccessMessage"
+    for o in by_name.values():
+        f = getattr(o, "after_edit", None)
+        if f:
+            f(kind, expect, accepted, lines, new_lines)
+    fp.append(f"edit-{kind}-{'a' if accepted else 'r'}")
+    res.probe(f"edit_{kind}_{'accepted' if accepted else 'rejected'}")
+
+
+def _cancel_force(w, op, by_name, res, fp):
+    """["cancel"|"force", k, mode]: mode 'offered' targets the k-th item currently offered, 'any' the k-th item."""
+    what, k, mode = op
+    try:
+        items = list(w.runlog().items)
+    except Exception:
+        fp.append(what + "-norunlog")
+        return
+    if mode == "offered":
+        cands = [it for it in items if (it.cancellable if what == "cancel" else it.forcible)]
+    elif mode == "unknown":
+        cands = []
+    else:
+        cands = items
+    if mode == "unknown":
+        target_id, item = "00000000-dead-beef-0000-000000000000", None
+    elif not cands:
+        fp.append(what + "-none")
+        return
+    else:
+        item = cands[k % len(cands)]
+        target_id = item.id
+    for o in by_name.values():
+        f = getattr(o, "before_cancel_force", None)
+        if f:
+            f(what, item, target_id)
+    ok = w.cancel(target_id) if what == "cancel" else w.force(target_id)
+    for o in by_name.values():
+        f = getattr(o, "after_cancel_force", None)
+        if f:
+            f(what, item, target_id, ok)
+    fp.append(f"{what}-{mode}-{'a' if ok else 'r'}")
+    res.probe(f"{what}_{'accepted' if ok else 'rejected'}")
